@@ -95,6 +95,16 @@ func genC03(seed uint64, idx int) *Plan {
 		return &Plan{Kind: "live", Seed: seed, Live: p}
 	}
 	p := genScriptBase(r)
+	if idx%8 == 3 {
+		// the config of the key the hello is sealed to carries an extension of
+		// its own (a non-mandatory one: clients and servers keep it as it is)
+		for i := range p.Keys {
+			if p.Keys[i].KeySeed == p.Target.KeySeed {
+				p.Keys[i].ExtraExt = true
+				p.Target = p.Keys[i]
+			}
+		}
+	}
 	if r.IntN(3) == 0 {
 		p.Trailer = []TrailerRec{{Type: 20, Len: 1}, {Type: 23, Len: 1 + r.IntN(500)}}
 	}
